@@ -15,9 +15,9 @@ CHECKS = {'C04': {'level': 'exploration',
                        '(modulo row order), 0 or 1 equality row from {x1+x2=1, x1-x2=0, x1=0} and c in {-1,0,1}^2 \\ {0}; '
                        'every convex QP over the same constraint sets (quick: up to 2 rows, thorough: up to 3) with the '
                        '14 distinct non-zero Q = D\'D, D over {-1,0,1}^{k x 2}, k in {1,2} (rank-deficient included) '
-                       'and c in {-1,0,1}^2; thorough adds every LP with n=3, 2..3 rows over {-1,0,1}^3 \\ {0} or 4 rows '
-                       'over a stated 14-row subset, h in {0,1}, 6 objectives, 0 or 1 equality row; each from the '
-                       'default x0 and from the first strictly feasible point of a stated lattice; 137k KKT-constructed '
+                       'and c in {-1,0,1}^2; thorough adds every LP with n=3, h in {0,1}, 0 or 1 equality row and 2..3 rows over '
+                       '{-1,0,1}^3 \\ {0} (6 objectives) or 4 rows over a stated 14-row subset (3 objectives); each from the '
+                       'default x0 and from the first strictly feasible point of a stated lattice; 135 324 KKT-constructed '
                        'programs (n in {1,2,3,5,8,12}, magnitudes 1e-2..1e2); the feasible and bounded n=2, m=3 '
                        'programs and all KKT programs again in 11 equivalent restatements. A complete small-scope '
                        'enumeration with an exact oracle, not a proof for other coefficients or sizes',
@@ -50,7 +50,8 @@ CHECKS = {'C04': {'level': 'exploration',
                      'args': ['--stage', 'oracle'],
                      'share': 0.1,
                      'what': 'no solver: exact-rational verdict (with verified certificate) of every small program vs '
-                             'brute-force search over the half-integer grid [-4,4]^n / [-8,8]^n in integer arithmetic'},
+                             'brute-force search over the half-integer grid [-4,4]^n / [-8,8]^n in integer arithmetic (n=2: every '
+                             'program, two-sided; n=3: every 101st program, one-sided)'},
                     {'name': 'small',
                      'harness': 'c04_program',
                      'args': ['--stage', 'small'],
